@@ -203,6 +203,8 @@ def cases(ctx):
         fixed = [c for c in cand if c[0][2] is False and c[0][3] is False and c[0][4] is None and c[2] == GOOD[c[1]][0]]
         rest = [c for c in cand if c not in fixed]
         cand = fixed + rng.sample(rest, min(len(rest), 30))
+    elif len(cand) > 700:
+        cand = rng.sample(cand, 700)
     out = []
     for (tool, fmt, verbose, varnames, sd), name, argv in cand:
         info = {"tool": tool, "fmt": fmt, "verbose": verbose, "varnames": varnames, "seed": sd, "name": name,
